@@ -383,7 +383,7 @@ class _VersionIndependentUnmarshaller:
         if PYTHON_VERSION_TRIPLE >= (3, 0) and self.version_tuple < (3, 0):
             string = UnicodeForPython3(unicodestring)
         else:
-            string = unicodestring.decode()
+            string = unicodestring.decode("utf-8", "surrogatepass")
 
         return self.r_ref(string, save_ref)
 
